@@ -693,7 +693,7 @@ func init() {
 		Cases: func(tier string, seed uint64) []fw.Case {
 			nCases, per := 60, 25
 			if tier == "thorough" {
-				nCases, per = 800, 125
+				nCases, per = 4000, 250
 			}
 			var cs []fw.Case
 			for i := 0; i < nCases; i++ {
